@@ -227,6 +227,19 @@ def body(run: Run, replay):
             run.violation("cbcheck: effective mass in percent is not effmass / total mass", {"desc": d}, dict(tags, clause="effmass"))
         if not np.allclose(np.sort(out.cb_frq), np.sort(c["frq"]), rtol=1e-8):
             run.violation("cbcheck: fixed-base frequencies differ from the fixed-interface eigenvalues", {"desc": d}, dict(tags, clause="cb_frq"))
+        # the print filter em_filt decides which modes are LISTED in the report; the returned tables keep every mode
+        if em.size:
+            try:
+                filt = float(np.median(out.effmass_percent.values.max(axis=1))) + 1e-9
+                outf = cb.cbcheck(io.StringIO(), Mh, Kh, bseto, bseto[:6], uset_h, uref=c["ids"][0], rb_norm=True, em_filt=filt)
+                if outf.effmass.shape != out.effmass.shape or not np.allclose(outf.effmass.values, em, rtol=1e-9, atol=1e-12) or \
+                        not np.allclose(outf.effmass_percent.values, out.effmass_percent.values, rtol=1e-9, atol=1e-12) or \
+                        len(outf.cb_frq) != len(out.cb_frq) or not np.allclose(outf.cb_frq, out.cb_frq, rtol=1e-10):
+                    run.violation("cbcheck(em_filt=%.3g): the returned effective-mass tables / fixed-base frequencies (%d modes) differ from those without a "
+                                  "print filter (%d modes): the modal effective mass no longer accounts for the total" % (filt, outf.effmass.shape[0], em.shape[0]),
+                                  {"desc": d}, dict(tags, clause="effmass", em_filt=True))
+            except Exception as ex:
+                run.violation("cbcheck(em_filt > 0) raised %r" % ex, {"desc": d}, dict(tags, clause="effmass"))
         run.trace_validated()
         # ---- cbtf: full equations of motion with the enforced boundary acceleration, at every frequency
         if len(descs) and (hash(json.dumps(d, sort_keys=True)) % 3 == 0 or not quick):
